@@ -15,7 +15,10 @@ N-IFEXP  ``return a if c else b`` -> ``if c: return a / else: return b``; ``x = 
 N-TESTVAR ``t = E; if t: ...`` -> ``if E: ...`` when ``t`` is read nowhere else in the function
 N-LOOP   ``acc = []; for x in xs: [t = f(x);] acc.append(g(t))``  ->  ``acc = [g(f(x)) for x in xs]`` - also
          nested loops, one ``if`` filter without else, ``acc += [e]``, ``d = {}; d[k] = v`` (dict
-         comprehension) and ``s = set(); s.add(e)``.  Temporaries of the body are inlined when they are
+         comprehension) and ``s = set(); s.add(e)``.  A body ``if c: d[k] = a else: d[k] = b`` whose arms each
+         feed the accumulator exactly once becomes the element ``k: a if c else b`` (same for append/add, elif
+         chains nest; the test is evaluated once per element as before); ``if c: A; continue`` followed by REST is
+         read as ``if c: A else: REST`` and a guard ``if c: continue`` as the filter ``if not c``.  Temporaries of the body are inlined when they are
          assigned once, read once and not used outside the loop.  Preserves behaviour for side-effect
          free element expressions (the package's are: constructors of SymPy objects and pure helpers);
          the accumulator must not be mentioned between its creation and the loop
@@ -24,6 +27,9 @@ N-CMP    ``K == x`` -> ``x == K`` for a literal K (same for ``!=``); for two non
          compares (ints, strings, symbols, tuples, sets) are symmetric; operands are not re-evaluated,
          and both operands of every such comparison in the package are side-effect free
          (checked: a call that is not on the PURE list keeps the comparison as written)
+N-STAR   ``f(*(e for x in xs))`` -> ``f(*[e for x in xs])``: a starred generator expression in a call is
+         exhausted, in order, at exactly the point of the argument evaluation at which the list would be
+         built; the callee receives the same positional arguments (the package spells it with a list)
 """
 
 from __future__ import annotations
@@ -68,6 +74,14 @@ class _Normalizer(ast.NodeTransformer):
                 swap = ast.unparse(b) < ast.unparse(a)
             if swap:
                 return ast.copy_location(ast.Compare(left=b, ops=node.ops, comparators=[a]), node)
+        return node
+
+    # ---- N-STAR
+    def visit_Call(self, node: ast.Call):
+        self.generic_visit(node)
+        for a in node.args:
+            if isinstance(a, ast.Starred) and isinstance(a.value, ast.GeneratorExp):
+                a.value = ast.copy_location(ast.ListComp(elt=a.value.elt, generators=a.value.generators), a.value)
         return node
 
     # ---- N-NOT
@@ -176,37 +190,86 @@ class _Normalizer(ast.NodeTransformer):
         """(element or (key, value), generators) if the loop only feeds the accumulator."""
         if loop.orelse:
             return None
-        body = self._inline_body_temps(loop.body)
+        body = self._inline_body_temps(self._else_from_continue(list(loop.body)))
         if body is None or len(body) != 1:
             return None
         st = body[0]
         gen = ast.comprehension(target=loop.target, iter=loop.iter, ifs=[], is_async=0)
-        if isinstance(st, ast.If) and not st.orelse and len(st.body) == 1:
-            gen.ifs.append(st.test)
-            st = st.body[0]
+        if isinstance(st, ast.If) and not st.orelse:
+            inner = self._inline_body_temps(st.body)
+            if inner is not None and len(inner) == 1:
+                gen.ifs.append(st.test)
+                st = inner[0]
         if isinstance(st, ast.For):
             inner = self._as_comprehension(st, acc, kind)
             if inner is None:
                 return None
             elt, gens = inner
             return elt, [gen, *gens]
+        if isinstance(st, ast.If) and st.orelse:
+            elt = self._merge_branches(st, acc, kind)
+            return None if elt is None else (elt, [gen])
+        elt = self._feed(st, acc, kind)
+        return None if elt is None else (elt, [gen])
+
+    @classmethod
+    def _else_from_continue(cls, stmts: list[ast.stmt]) -> list[ast.stmt]:
+        """Loop body `if c: A; continue` + REST  ->  `if c: A else: REST`  (`if c: continue` + REST -> `if not c: REST`):
+        the same statements run for every element.  Only used while a loop is being folded."""
+        for i, st in enumerate(stmts[:-1]):
+            if isinstance(st, ast.If) and not st.orelse and st.body and isinstance(st.body[-1], ast.Continue):
+                rest = cls._else_from_continue(stmts[i + 1:])
+                if st.body[:-1]:
+                    new = ast.If(test=st.test, body=st.body[:-1], orelse=rest)
+                else:
+                    new = ast.If(test=ast.copy_location(ast.UnaryOp(op=ast.Not(), operand=st.test), st.test), body=rest, orelse=[])
+                return [*stmts[:i], ast.copy_location(new, st)]
+        return stmts
+
+    def _merge_branches(self, st: ast.If, acc: str, kind: str):
+        """`if c: acc[k] = a else: acc[k] = b` -> element `k: a if c else b` (likewise append/add; elif chains
+        nest).  Every branch must feed the accumulator exactly once (after inlining its temporaries); the test
+        is evaluated once per iteration as before (twice textually only when the keys of a dict differ)."""
+        arms = []
+        for branch in (st.body, st.orelse):
+            b = self._inline_body_temps(branch)
+            if b is None or len(b) != 1:
+                return None
+            one = b[0]
+            if isinstance(one, ast.If) and one.orelse:
+                arms.append(self._merge_branches(one, acc, kind))
+            else:
+                arms.append(self._feed(one, acc, kind))
+            if arms[-1] is None:
+                return None
+        if any(isinstance(n, ast.Name) and n.id == acc for n in ast.walk(st.test)):
+            return None
+        ifexp = lambda a, b: ast.copy_location(ast.IfExp(test=st.test, body=a, orelse=b), st)  # noqa: E731
+        if kind == "dict":
+            (k1, v1), (k2, v2) = arms
+            key = k1 if ast.dump(k1) == ast.dump(k2) else ifexp(k1, k2)
+            return key, ifexp(v1, v2)
+        return ifexp(arms[0], arms[1])
+
+    def _feed(self, st: ast.stmt, acc: str, kind: str):
+        """The element (or (key, value)) that the statement adds to the accumulator, else None."""
         uses_acc = lambda e: any(isinstance(n, ast.Name) and n.id == acc for n in ast.walk(e))  # noqa: E731
         if kind == "list":
             if (isinstance(st, ast.Expr) and isinstance(st.value, ast.Call) and isinstance(st.value.func, ast.Attribute) and st.value.func.attr == "append"
                     and isinstance(st.value.func.value, ast.Name) and st.value.func.value.id == acc and len(st.value.args) == 1 and not st.value.keywords
                     and not uses_acc(st.value.args[0])):
-                return st.value.args[0], [gen]
+                return st.value.args[0]
             if (isinstance(st, ast.AugAssign) and isinstance(st.op, ast.Add) and isinstance(st.target, ast.Name) and st.target.id == acc
                     and isinstance(st.value, ast.List) and len(st.value.elts) == 1 and not uses_acc(st.value)):
-                return st.value.elts[0], [gen]
+                return st.value.elts[0]
         if kind == "set":
             if (isinstance(st, ast.Expr) and isinstance(st.value, ast.Call) and isinstance(st.value.func, ast.Attribute) and st.value.func.attr == "add"
                     and isinstance(st.value.func.value, ast.Name) and st.value.func.value.id == acc and len(st.value.args) == 1 and not uses_acc(st.value.args[0])):
-                return st.value.args[0], [gen]
+                return st.value.args[0]
         if kind == "dict":
             if (isinstance(st, ast.Assign) and len(st.targets) == 1 and isinstance(st.targets[0], ast.Subscript) and isinstance(st.targets[0].value, ast.Name)
                     and st.targets[0].value.id == acc and not uses_acc(st.value) and not uses_acc(st.targets[0].slice)):
-                return (st.targets[0].slice, st.value), [gen]
+                return (st.targets[0].slice, st.value)
         return None
 
     def _fold_loops(self, body: list[ast.stmt]) -> list[ast.stmt]:
